@@ -33,6 +33,12 @@ fn judge(cx: &mut Ctx, id: &str, bytes: &Rc<Vec<u8>>, desc: &str, inits: &[Rc<Ve
     }
     let n = bytes.len() as u64;
     let obs = sweep(bytes, inits, &cx.cfg);
+    if cx.rep.verbose {
+        eprintln!("outcome: {}", obs.outcome);
+        for c in obs.calls.iter().take(6) {
+            eprintln!("  call {:24} ops={:8} bytes={:9} cpu_us={:8} peak={:9} max_req={:9} budget_hit={}", c.call, c.ops, c.bytes, c.cpu_ns / 1000, c.peak, c.max_req, c.budget_hit);
+        }
+    }
     cx.rep.note("outcomes", &obs.outcome.chars().take(90).collect::<String>());
     if obs.opened {
         cx.rep.add("inputs_opened_ok", 1);
@@ -195,7 +201,8 @@ fn run_amplifiers(cx: &mut Ctx, idx: &mut u64) -> bool {
             if !cx.args.mine(*idx) {
                 continue;
             }
-            let mut prev: Option<(u64, u64, u64, u64)> = None;
+            // (n, ops of open, bytes of open, cpu = max(open, costliest later call), min of 2 sweeps)
+            let mut steps: Vec<(u64, u64, u64, u64)> = Vec::new();
             for d in 0..4 {
                 let target = base << d;
                 let id = format!("amp:{}:{}", fam, target);
@@ -209,32 +216,110 @@ fn run_amplifiers(cx: &mut Ctx, idx: &mut u64) -> bool {
                 let n = bytes.len() as u64;
                 judge(cx, &id, &bytes, &format!("amplifier {} target {}", fam, target), &[]);
                 if cx.prop == "C07" {
-                    // doubling test on the open call
                     let obs = sweep(&bytes, &[], &cx.cfg);
+                    let obs2 = sweep(&bytes, &[], &cx.cfg);
+                    let worst = |o: &Obs| o.calls.iter().skip(1).map(|c| c.cpu_ns).max().unwrap_or(0);
+                    let later_cpu = worst(&obs).min(worst(&obs2));
                     if let Some(c) = obs.calls.first() {
-                        let cur = (n, c.ops, c.bytes, c.cpu_ns);
-                        // only a real growth step is comparable; anything else is skipped
-                        // (inconclusive for this step), never a verdict
-                        if let Some(p) = prev.filter(|p| cur.0 as f64 >= p.0 as f64 * 1.5) {
-                            cx.rep.add("doubling_steps_compared", 1);
-                            let growth_n = cur.0 as f64 / p.0.max(1) as f64;
-                            let lim = growth_n * 1.6;
-                            let og = (cur.1 as f64) / (p.1.max(1) as f64);
-                            let bg = (cur.2 as f64) / (p.2.max(1) as f64);
-                            let cg = (cur.3 as f64) / (p.3.max(1) as f64);
-                            cx.rep.max("max_ops_growth_per_doubling", og / growth_n * 2.0);
-                            cx.rep.max("max_bytes_growth_per_doubling", bg / growth_n * 2.0);
-                            if (og > lim && cur.1 > 4000) || (bg > lim && cur.2 > (1 << 16)) || (cg > lim * 2.0 && cur.3 > 20_000_000) {
-                                cx.rep.fail("C07", &id, "superlinear_growth", json!({"family": fam, "prev": {"n": p.0, "ops": p.1, "bytes": p.2, "cpu_ns": p.3}, "cur": {"n": cur.0, "ops": cur.1, "bytes": cur.2, "cpu_ns": cur.3}}));
-                            }
-                        }
-                        prev = Some(cur);
+                        let open_cpu = c.cpu_ns.min(obs2.calls.first().map(|x| x.cpu_ns).unwrap_or(c.cpu_ns));
+                        cx.rep.max("max_later_call_cpu_ns_on_amplifiers", later_cpu as f64);
+                        steps.push((n, c.ops, c.bytes, open_cpu.max(later_cpu)));
                     }
                 }
                 if cx.rep.too_many_fails() {
                     return false;
                 }
             }
+            if cx.prop == "C07" && steps.len() >= 2 {
+                // doubling test: between consecutive sizes that really grew (>= 1.5x), ops and
+                // bytes must not grow faster than 1.6 x the size ratio (one step suffices: these
+                // counters are deterministic); CPU time is noisy, so it needs TWO consecutive
+                // super-linear steps above a 20 ms floor.
+                let mut cpu_bad_run = 0;
+                for w in steps.windows(2) {
+                    let (p, cur) = (w[0], w[1]);
+                    if (cur.0 as f64) < p.0 as f64 * 1.5 {
+                        cpu_bad_run = 0;
+                        continue;
+                    }
+                    cx.rep.add("doubling_steps_compared", 1);
+                    let growth_n = cur.0 as f64 / p.0.max(1) as f64;
+                    let lim = growth_n * 1.6;
+                    let og = cur.1 as f64 / p.1.max(1) as f64;
+                    let bg = cur.2 as f64 / p.2.max(1) as f64;
+                    let cg = cur.3 as f64 / p.3.max(1) as f64;
+                    // maxima are reported for the steps that are judged (above the noise floors)
+                    if cur.1 > 4000 {
+                        cx.rep.max("max_ops_growth_per_doubling", og / growth_n * 2.0);
+                    }
+                    if cur.2 > (1 << 16) {
+                        cx.rep.max("max_bytes_growth_per_doubling", bg / growth_n * 2.0);
+                    }
+                    if cur.3 > 20_000_000 {
+                        cx.rep.max("max_cpu_growth_per_doubling_above_20ms", cg / growth_n * 2.0);
+                    }
+                    let id = format!("amp:{}:{}", fam, cur.0);
+                    if (og > lim && cur.1 > 4000) || (bg > lim && cur.2 > (1 << 16)) {
+                        cx.rep.fail("C07", &id, "superlinear_growth", json!({"family": fam, "what": "stream operations / bytes", "prev": {"n": p.0, "ops": p.1, "bytes": p.2}, "cur": {"n": cur.0, "ops": cur.1, "bytes": cur.2}}));
+                    }
+                    if cg > lim && cur.3 > 20_000_000 {
+                        cpu_bad_run += 1;
+                        if cpu_bad_run >= 2 {
+                            cx.rep.fail("C07", &id, "superlinear_growth", json!({"family": fam, "what": "cpu time (two consecutive doublings, min of 2 sweeps each)", "steps": steps.iter().map(|s| json!({"n": s.0, "cpu_ms": s.3 as f64 / 1e6})).collect::<Vec<_>>()}));
+                        }
+                    } else {
+                        cpu_bad_run = 0;
+                    }
+                }
+            }
+        }
+    }
+    true
+}
+
+/// Structure-aware fresh generation: thousands of freshly generated movies (plain and
+/// fragmented, every flag / layout combination the model knows, including empty runs, several
+/// track fragments per track, 64-bit headers) are swept with every accessor - as valid files and
+/// with one byte-level havoc variant each. This widens the *shapes* the fixed seed corpus has.
+fn run_generated(cx: &mut Ctx, idx: &mut u64) -> bool {
+    use crate::model::*;
+    let n = cx.args.scale(4_000, 40_000);
+    for i in 0..n {
+        *idx += 1;
+        if !cx.args.mine(*idx) {
+            continue;
+        }
+        let id = format!("gen:{}", i);
+        if !cx.args.want(&id) && !cx.args.want(&format!("gen:{}:havoc", i)) && !cx.args.want(&format!("gen:{}:segment", i)) {
+            continue;
+        }
+        let mut rng = Rng::derive(cx.args.seed, 0x6E6, i);
+        if i % 2 == 0 {
+            let (mf, mt, mr) = if i % 10 == 0 { (6, 3, 12) } else { (4, 2, 4) };
+            let same_trex = rng.bool();
+            let fm = gen_frag_movie(&mut rng, mf, mt, mr, same_trex);
+            let b = build_fragmented(&fm);
+            let whole = Rc::new(b.whole.bytes.clone());
+            cx.rep.cover(hash_str("generated|fragmented"));
+            judge(cx, &id, &whole, "generated fragmented movie (single stream)", &[]);
+            let init = Rc::new(b.init.clone());
+            judge(cx, &format!("gen:{}:segment", i), &Rc::new(b.segment.clone()), "generated media segment against its init segment", &[init]);
+            let seed = crate::hostile::seed_from_ser("gen", b.whole, None);
+            let (hb, m) = mutate_havoc(&seed, &[], &mut rng);
+            judge(cx, &format!("gen:{}:havoc", i), &Rc::new(hb), &format!("generated fragmented movie + {}", m.desc), &[]);
+        } else {
+            let m = gen_movie(&mut rng, 3, if i % 9 == 1 { 60 } else { 8 }, 24);
+            let fl = gen_file_layout(&mut rng, &m);
+            let b = build_plain(&m, &fl, &|_| {});
+            cx.rep.cover(hash_str("generated|plain"));
+            judge(cx, &id, &Rc::new(b.ser.bytes.clone()), "generated movie", &[]);
+            let seed = crate::hostile::seed_from_ser("gen", b.ser, None);
+            let (hb, mm) = mutate_havoc(&seed, &[], &mut rng);
+            judge(cx, &format!("gen:{}:havoc", i), &Rc::new(hb), &format!("generated movie + {}", mm.desc), &[]);
+        }
+        cx.rep.add("generated_movies", 1);
+        if cx.rep.too_many_fails() {
+            return false;
         }
     }
     true
@@ -271,7 +356,7 @@ pub fn run(args: &Args) -> i32 {
     let cfg = SweepCfg { measure_alloc: prop == "C08", max_sample_ids: 16, ops_budget: (OPS_A, OPS_B), bytes_budget: (BYTES_A, BYTES_B), n: std::cell::Cell::new(0) };
     let mut cx = Ctx { args, rep: &mut rep, prop, inits, cfg };
     let mut idx = 0u64;
-    if run_amplifiers(&mut cx, &mut idx) {
+    if run_amplifiers(&mut cx, &mut idx) && run_generated(&mut cx, &mut idx) {
         run_seed_cases(&mut cx, &seeds, &mut idx);
     }
     rep.finish()
